@@ -9,11 +9,16 @@ From Verif Require Import Json Outcome.
 (** last successful op on (loc, id): "addsched" | "addplain" | "addfar" | "remrule" | "" *)
 Definition last_op (ops : list json) (loc id : string) : string :=
   fold_left (fun acc o => if String.eqb (jfS "loc" o) loc && String.eqb (jfS "id" o) id && jfB "ok" o
-                          then jfS "op" o else acc) ops "".
+                          then (* "remdep" removes the fact that an "adddepsched" rule names in deleteWith: the
+                                  cascade removes that rule (and only such a rule) *)
+                               if String.eqb (jfS "op" o) "remdep"
+                               then (if String.eqb acc "adddepsched" then "remrule" else acc)
+                               else jfS "op" o
+                          else acc) ops "".
 
 Definition expected (ops : list json) (loc id : string) : Z * bool :=
   let l := last_op ops loc id in
-  if String.eqb l "addsched" then (1, false)      (* ran once, then the one-shot rule deleted itself *)
+  if String.eqb l "addsched" || String.eqb l "adddepsched" then (1, false)      (* ran once, then the one-shot rule deleted itself *)
   else if String.eqb l "addplain" || String.eqb l "addfar"
        then (0, true)  (* replaced by an ordinary rule, or by one scheduled far in the future: never runs, stays *)
   else (0, false).                                (* removed, or never added *)
@@ -42,6 +47,7 @@ Definition check_cronsys (c : json) : json :=
         ("kf", jstrs_of []);
         ("features", jstrs_of ((if shared then ["same-id-scheduled-in-two-locations"] else []) ++
                                (if existsb (fun o => String.eqb (jfS "op" o) "remrule" && jfB "ok" o) ops then ["removed-before-due"] else []) ++
+                               (if existsb (fun o => String.eqb (jfS "op" o) "remdep" && jfB "ok" o) ops then ["dependency-removed-before-due"] else []) ++
                                (if existsb (fun o => String.eqb (jfS "op" o) "addplain" && jfB "ok" o) ops then ["replaced-before-due"] else []) ++
                                (if jfB "restart" c then ["restart"] else []) ++
                                (if late then ["late"] else []))%list);
